@@ -182,6 +182,28 @@ def check_case(r, ctx):
                                 "x == %s copy but hashes differ (%s); args %s" % (tag, tag, K.canon(args)[:800]))
         for k, y in ys:
             hash(y)
+        # an attribute re-assigned through its public setter AFTER the object has been compared and hashed: the object
+        # is then the object with that attribute value (whatever key it memoised before is void)
+        for k, y in ys[:4]:
+            prop = getattr(type(x), k, None)
+            if not isinstance(prop, property) or prop.fset is None:
+                continue
+            try:
+                x3 = K.construct(spec, args)
+                hash(x3), x3 == x2
+                setattr(x3, k, spec.getter(k)(copy.deepcopy(y)))
+            except Exception:
+                ctx.label("setter-not-usable:" + k)
+                continue
+            if K.snap_cmp(K.snap(x3), K.snap(y))[0] != K.SAME:
+                ctx.label("setter-normalises:" + k)     # validating / converting setter: no obligation
+                continue
+            _pair(cls, "set-after-compare:%s.%s" % (cls, k), x3, y, True, lambda k=k: "attribute %s assigned after "
+                  "==/hash; args %s" % (k, K.canon(args)[:600]))
+            if hash(x3) != hash(y):
+                raise Violation("%s-hash-stale-after-setter" % cls, "attribute %s assigned after hash(); x == y but "
+                                "hash(x) != hash(y)" % k)
+            ctx.label("set-after-compare")
         # a value changed far below 1e-10: the statement leaves open whether the objects are equal, but IF they compare
         # equal their hashes must agree (and the comparison must still be symmetric and consistent with !=)
         nargs, where = nudged(args, r.get("nudge", 0))
